@@ -58,7 +58,111 @@ theorem C17_import_calibrated (ops : NumOps) (shapeOf : String → List Nat) (g 
 theorem C17_single (ops : NumOps) (shapeOf : String → List Nat) (f : Obj) (n : String) (g : Obj) (a : ArrayVal)
     (hg : legacyGroups f = [(n, g)]) (ha : importLegacyGroup ops shapeOf g = .ok a) :
     readLegacy ops shapeOf f = .ok (.single n a) := by
-  simp [readLegacy, hg, List.foldlM, ha, bind, Except.bind, pure, Except.pure]
+  simp [readLegacy, hg, List.foldlM, importStep, ha, bind, Except.bind, pure, Except.pure]
+
+/-- C17, FAITHFUL IMPORT of one data group: for every group holding a `data` dataset and, for each axis, a full-length
+    1-based `dim<i+1>` dataset with `name` and `units`, the import succeeds and the Array has that data token (dtype,
+    shape, bytes: H2), and per axis exactly the stored vector, name and units — no re-expansion, for every arithmetic -/
+theorem C17_import_faithful (ops : NumOps) (shapeOf : String → List Nat) (g : Obj) (tok : String) (da : Attrs)
+    (vs : Nat → List Num) (nm un : Nat → String) (ats : Nat → Attrs)
+    (hdata : alookup "data" g.kids = some (.dataset da (.tok tok)))
+    (hdims : ∀ i, i < (shapeOf tok).length →
+      alookup (autoName "dim" (i + 1)) g.kids = some (.dataset (ats i) (.nums (vs i))) ∧
+      alookup "units" (ats i) = some (.str (un i)) ∧ alookup "name" (ats i) = some (.str (nm i)) ∧
+      (vs i).length = (shapeOf tok).getD i 0) :
+    ∃ a, importLegacyGroup ops shapeOf g = .ok a ∧ a.dataTok = tok ∧ a.dataShape = shapeOf tok ∧ a.isStack = false ∧
+      ∀ i, i < (shapeOf tok).length → a.dims.getD i [] = vs i ∧ a.dimNames.getD i "" = nm i ∧ a.dimUnits.getD i "" = un i := by
+  have hd : legacyData g = .ok tok := by simp [legacyData, hdata, pure, Except.pure]
+  have htr : (List.range (shapeOf tok).length).mapM (legacyDimTriple g.kids) =
+      .ok ((List.range (shapeOf tok).length).map (fun i => (DimArg.vec (vs i), un i, nm i))) := by
+    apply mapM_ok
+    intro i hi
+    obtain ⟨h1, h2, h3, _⟩ := hdims i (List.mem_range.mp hi)
+    simp [legacyDimTriple, h1, strAttr, Obj.attrs, h2, h3, bind, Except.bind, pure, Except.pure]
+  have hrank : (initArray tok (shapeOf tok) "" .none).rank = (shapeOf tok).length := by
+    simp [initArray, ArrayVal.rank, ArrayVal.shape, labIsStack]
+  have hshape : (initArray tok (shapeOf tok) "" .none).shape = shapeOf tok := by
+    simp [initArray, ArrayVal.shape, labIsStack]
+  obtain ⟨a, ha, a1, a2, _, a4, _, _, aall⟩ := mkArray_ok ops tok (shapeOf tok) ""
+    ((List.range (shapeOf tok).length).map (fun i => DimArg.vec (vs i)))
+    ((List.range (shapeOf tok).length).map nm) ((List.range (shapeOf tok).length).map un) .none vs
+    (by simp [labIsStack]) (by simp [hrank]) (by simp [hrank]) (by simp [hrank])
+    (fun i hi => by rw [hrank] at hi; exact ⟨_, getD_map_range _ _ _ _ hi⟩)
+    (fun i hi => by
+      rw [hrank] at hi
+      rw [hshape, getD_map_range _ _ _ _ hi]
+      exact C02_axis_full ops _ _ (hdims i hi).2.2.2)
+  refine ⟨a, ?_, a1, a2, by rw [a4]; rfl, ?_⟩
+  · simp only [importLegacyGroup, hd, htr, bind, Except.bind, List.map_map]
+    exact ha
+  · intro i hi
+    obtain ⟨h1, h2, h3⟩ := aall i (by rw [hrank]; exact hi)
+    exact ⟨h1, by rw [h3, getD_map_range _ _ _ _ hi], by rw [h2, getD_map_range _ _ _ _ hi]⟩
+
+theorem setNamed_fresh (n : String) (a : ArrayVal) : ∀ (l : List (String × ArrayVal)), n ∉ l.map (·.1) → setNamed n a l = l ++ [(n, a)]
+  | [], _ => rfl
+  | (k, v) :: r, h => by
+    simp only [List.map_cons, List.mem_cons, not_or] at h
+    have : ¬ k = n := fun e => h.1 e.symm
+    simp [setNamed, this, setNamed_fresh n a r h.2]
+
+theorem foldl_setNamed_distinct : ∀ (arrs acc : List (String × ArrayVal)), ((acc ++ arrs).map (·.1)).Nodup →
+    arrs.foldl (fun acc na => setNamed na.1 na.2 acc) acc = acc ++ arrs
+  | [], acc, _ => by simp
+  | (n, a) :: rest, acc, h => by
+    simp only [List.foldl_cons]
+    have hn : n ∉ acc.map (·.1) := by
+      intro hm
+      simp only [List.map_append, List.map_cons] at h
+      have := (List.nodup_append.mp h).2.2 n hm n (by simp)
+      exact this rfl
+    rw [setNamed_fresh n a acc hn]
+    have := foldl_setNamed_distinct rest (acc ++ [(n, a)]) (by simpa [List.append_assoc] using h)
+    simpa [List.append_assoc] using this
+
+theorem foldlM_importStep (ops : NumOps) (shapeOf : String → List Nat) : ∀ (gs : List (String × Obj)) (as : List ArrayVal)
+    (acc : List (String × ArrayVal)), gs.length = as.length →
+    (∀ i, i < gs.length → importLegacyGroup ops shapeOf (gs.getD i ("", .group [] [])).2 = .ok (as.getD i default)) →
+    gs.foldlM (importStep ops shapeOf) acc = .ok (acc ++ (gs.map (·.1)).zip as)
+  | [], [], acc, _, _ => by simp [List.foldlM, pure, Except.pure]
+  | [], _ :: _, _, h, _ => by simp at h
+  | _ :: _, [], _, h, _ => by simp at h
+  | (n, g) :: gs, a :: as, acc, hl, h => by
+    have h0 := h 0 (by simp)
+    simp only [List.getD_cons_zero] at h0
+    have ih := foldlM_importStep ops shapeOf gs as (acc ++ [(n, a)]) (by simpa using hl) (fun i hi => by
+      have := h (i + 1) (by simp; omega)
+      simpa using this)
+    simp only [List.foldlM, importStep, h0, bind, Except.bind, pure, Except.pure]
+    rw [ih]
+    simp [List.append_assoc]
+
+/-- C17, SEVERAL data groups with distinct names: the read returns a root holding every imported Array under its group's
+    name, in the order the groups are visited -/
+theorem C17_many (ops : NumOps) (shapeOf : String → List Nat) (f : Obj) (gs : List (String × Obj)) (as : List ArrayVal)
+    (hg : legacyGroups f = gs) (h2 : 2 ≤ gs.length) (hl : gs.length = as.length)
+    (himp : ∀ i, i < gs.length → importLegacyGroup ops shapeOf (gs.getD i ("", .group [] [])).2 = .ok (as.getD i default))
+    (hdistinct : (gs.map (·.1)).Nodup) :
+    readLegacy ops shapeOf f = .ok (.many ((gs.map (·.1)).zip as)) := by
+  have hfold := foldlM_importStep ops shapeOf gs as [] hl himp
+  have hne : gs.isEmpty = false := by cases gs with
+    | nil => simp at h2
+    | cons x xs => rfl
+  have hzl : ((gs.map (·.1)).zip as).length = gs.length := by simp [List.length_zip, hl]
+  have hnames : (((gs.map (·.1)).zip as).map (·.1)) = gs.map (·.1) := by
+    rw [List.map_fst_zip]; simp [hl]
+  have hset := foldl_setNamed_distinct ((gs.map (·.1)).zip as) [] (by simpa [hnames] using hdistinct)
+  simp only [readLegacy, hg, hne, Bool.false_eq_true, if_false, hfold, List.nil_append, bind, Except.bind, pure, Except.pure]
+  -- not the single case: the list has at least two entries
+  cases hz : (gs.map (·.1)).zip as with
+  | nil => rw [hz] at hzl; simp at hzl; omega
+  | cons x xs =>
+    cases xs with
+    | nil => rw [hz] at hzl; simp at hzl; omega
+    | cons y ys =>
+      rw [hz] at hset
+      simp only [List.nil_append] at hset
+      simp only [hset]
 
 -- non-vacuity and the forced hypothesis, on concrete files
 def exLegacyGroup (name : String) (tok : String) : String × Obj :=
